@@ -78,6 +78,8 @@ type Recorder struct {
 	start    time.Time
 	subIdx   int
 
+	counting bool
+
 	replayFile string
 	replay     *replayDoc
 	known      map[string]string // key -> text
@@ -200,6 +202,13 @@ func hashOf(sub string, enc []byte) uint64 {
 	h.Write([]byte{0})
 	h.Write(enc)
 	return h.Sum64()
+}
+
+// Point counts a sub-case (e.g. one fault point of an enumerated layout) while a search is running and has not started shrinking.
+func (r *Recorder) Point(sub string, enc []byte, nontrivial bool, classes []string) {
+	if r.counting {
+		r.Case(sub, enc, nontrivial, classes)
+	}
 }
 
 // Case counts one explored case. enc is its canonical encoding.
@@ -502,6 +511,7 @@ func Search[C any](r *Recorder, s Sub[C]) {
 			if err != nil {
 				panic("harness: case not serialisable: " + err.Error())
 			}
+			r.counting = !failing
 			if !failing {
 				nt := s.NonTrivial == nil || s.NonTrivial(c)
 				var cl []string
@@ -516,11 +526,13 @@ func Search[C any](r *Recorder, s Sub[C]) {
 			}
 			if err := runOracle(s.Oracle, c); err != nil {
 				failing = true
+				r.counting = false
 				lastEnc, lastErr = enc, err
 				t.Fatalf("%v", err)
 			}
 		})
 	}()
+	r.counting = false
 	switch {
 	case failing:
 		// rapid re-runs the minimal case last, so lastEnc is the shrunk case
